@@ -35,4 +35,23 @@ PROPS = {
             "recoverable.wrapper: only its try statement is verified (mechanically extracted); the argument-discovery statements before it are dropped and `step`, `job` are taken as parameters",
         ],
     },
+    "C14": {
+        "category": "proof",
+        "harness_modes": ["crosscheck"],
+        "explanation": "Storage.__add__/__sub__/__or__/__ior__ and Storage.__init__ are proved field-wise (including which exception is raised when); "
+        "_reduce_storages is proved, for every sequence of storages, to return a normalised map whose entry for each mount point is the left fold of the "
+        "operator over the sizes with that mount point (sum for +, first-minus-rest for -), by a loop invariant over recursive spec functions; "
+        "Hardware._normalize_storage/normalized are proved to preserve every per-mount total and to produce a normalised map; Hardware.__add__/__sub__ are proved "
+        "per mount point against those totals (aliasing keys and several keys per mount point included, because the spec is over totals); satisfies is proved to "
+        "return exactly cores>=, memory>= and per-mount-total>= for every mount point of the requirement, and to raise on a missing mount point. The three laws of "
+        "the statement — (h+r)-r restores every per-mount amount, cores and memory; normalisation is idempotent and total-preserving; satisfies iff at least as large — "
+        "are lemmas over these contracts. The inductive facts about the folds (concatenation, duplicate-free sequences, unseen mount points) are ghost lemmas "
+        "proved by ghost loops.",
+        "assumptions": [
+            "A-REAL float arithmetic is treated as real arithmetic (with IEEE doubles (0.1+0.2)-0.2 != 0.1; outside this family)",
+            "law_add_then_sub_restores is stated for the case that the subtraction returns normally (Hardware.__sub__'s contract says it may raise WorkflowExecutionException, not exactly when)",
+            "bodies of any()/all() generator expressions are evaluated as pure specifications (a KeyError inside one is not modelled; in satisfies it is excluded by the preceding key-set test)",
+            "Hardware.__or__/__ior__ (deepcopy) are not under contract",
+        ],
+    },
 }
